@@ -119,6 +119,24 @@ def _table_part(name, expr, sel, timeout, float_concrete=True):
                 rep={'i': -129, 's': 'é', 'b': True, 'bits': 0x3FF8000000000000, 'dn': 1, 'de': 2, 'k0': 'k'})
 
 
+def kernels(tier, seed):
+    """translation check of the reference itself: the repository's decode fixtures (captured frames + expected
+    values) re-encoded by spec/refcodec.py from the expected values; pamqp is not involved"""
+    import os
+    import subprocess
+    import sys as _sys
+    repo = os.environ.get('VERIF_REPO', '/repo')
+    here = os.path.dirname(os.path.dirname(os.path.abspath(__file__)))
+    src = repo if os.path.exists(os.path.join(repo, 'tests', 'test_frame_unmarshaling.py')) else '/repo'
+    p = subprocess.run(['/venv/bin/python', os.path.join(here, 'tools', 'validate_refcodec.py'), src],
+                       capture_output=True, text=True, timeout=120)
+    first = (p.stdout.strip().splitlines() or [''])[0]
+    return [{'name': 'reference_vs_repo_fixtures', 'status': 'unsat' if p.returncode == 0 else 'unknown',
+             'solver': 'n/a (concrete translation check of the oracle)', 'queries': 0, 'solver_time_s': 0.0,
+             'bound': 'the method-frame byte fixtures of tests/test_frame_unmarshaling.py',
+             'detail': first}]
+
+
 def partitions(tier, seed):
     q = tier == 'quick'
     parts = []
@@ -127,13 +145,13 @@ def partitions(tier, seed):
         has_table = any(t == 'table' for _, t, _ in m['args'])
         if q:
             if has_table and nstr >= 1:
-                parts.append(_method_part(m, 1, 150, '_a', with_table=False,
+                parts.append(_method_part(m, 1, 300, '_a', with_table=False,
                                           note='(A) all args symbolic (strings <= 1 code point), table None'))
-                parts.append(_method_part(m, 1, 150, '_b', fixed=c01._fixed_strings(m),
+                parts.append(_method_part(m, 1, 300, '_b', fixed=c01._fixed_strings(m),
                                           note='(B) table in {None, {}, {k: n}}, integers and flag bits '
                                                'symbolic, strings fixed'))
             else:
-                parts.append(_method_part(m, 1, 150))
+                parts.append(_method_part(m, 1, 300))
         else:
             strlen = 3 if nstr <= 1 else 2
             if has_table and nstr >= 2:
